@@ -6,32 +6,26 @@ from props import sqio_common as S
 hx = S.hx
 
 # theorems added in round 6 (kept here: sqio_common.py is shared with C02 / C07)
-R6_THEOREMS = ["tracker_rpl_iff", "tracker_bpl_iff", "tracker_rpl_unset_iff", "tracker_nonfinal_lines_have_rpl",
-               "tracker_last_line_le_rpl", "tracker_exceptions_are_real"]
+R6_THEOREMS = ["tracker_iff", "tracker_sound", "tracker_rejects_former_exceptions"]
 
 
-def tracker_closed_form(data):
-    """Python rendering of Sqio/TrackerExact.lean (run_rpl_closed / run_bpl_closed): the value of (bpl, rpl) after a sequential
-    scan of the whole FASTA file = fold of `upd` over the consecutive pairs of terminated data lines of each record, in file order."""
-    def upd(pl, a, b):
-        if pl == 0:
-            return 0
-        if pl == -1:
-            return a
-        if a != pl:
-            return 0
-        if b > pl:
-            return 0
-        return pl
-    bpl = rpl = -1
+def tracker_predicate(data):
+    """Python rendering of Props/C04.lean `tracker_iff` (Sqio/TrackerExact.lean): None if no data line of the file is followed by another
+    line of its record (the tracker stays unset), else (w, p, holds): the bytes / residues of the first such line and whether the file
+    has that constant geometry (every line followed by another is exactly (w, p); every line at all has <= p residues and
+    <= w - p - 1 ignored bytes besides its newline)."""
+    recs = []
     for lines in S.fasta_geometry(data):
         while lines and lines[0][1] == 0 and lines[0][0] <= 2:   # blank lines right after the header are skipped by header_fasta
             lines = lines[1:]
-        lines = [l for l in lines if l[2]]                       # an unterminated last line is never an end-of-line event
-        for (b1, r1, _), (b2, r2, _) in zip(lines, lines[1:]):
-            bpl = upd(bpl, b1, b2)
-            rpl = upd(rpl, r1, r2)
-    return bpl, rpl
+        recs.append(lines)
+    nonfinal = [l for lines in recs for l in lines[:-1]]
+    if not nonfinal:
+        return None
+    w, p = nonfinal[0][0], nonfinal[0][1]
+    holds = p > 0 and w > 0 and all((b, r) == (w, p) for b, r, _ in nonfinal) and all(
+        r <= p and b - r - (1 if term else 0) <= w - p - 1 for lines in recs for b, r, term in lines)
+    return w, p, holds
 
 
 def gen_trackscan(rng):
@@ -79,11 +73,12 @@ class C04(Prop):
                   "Read, ReadInfo and ReadSequence agree field by field from every ready handle (read_readInfo_readSequence_agree, with the closed forms readInfo_closed_form / readSequence_closed_form); "
                   "the forward ReadWindow series of a record, for every request stream (C_k >= 0, W_k >= 1), is exactly the declarative window series specWindows of the residues Read returns - context = min(C, previous window) preceding residues, min(W, left) new ones, 1-based contiguous coordinates, residues R[start..end] - then eslEOD with L = |R|, same name/acc/desc/roff/hoff/doff, cursor where Read leaves it (windows_eq_read; windows_concat_eq_read: the new parts concatenate to Read's residues; windows_coords; file_windows_eq_specFasta: the loop over a whole file, from open on, returns the specWindows of specFasta's records), on top of the closed form of read_nres for every B (read_nres_closed_form); "
                   "whole-sequence ReadBlock fills its slots with the next records of the same parser (readBlock_short_eq_read); reverse-strand windows: the schedule tiles 1..L downwards (rev_windows_tile) and, when the handle holds no line geometry (brute-force addressing), every reverse window IS esl_sq_ReverseComplement of the residues start..end of the scanned record (rev_first_window_eq_revcomp_slice, rev_next_window_eq_revcomp_slice), and likewise under line / residue addressing when the data really has the geometry bpl/rpl promise (rev_window_eq_revcomp_slice_line / _residue), on top of read_nres with nskip > 0 in closed form; "
+                  "the line-geometry tracker (seebuf_linegeometry, repaired by 283ccd7): after a scan of whole records bpl and rpl are both positive IF AND ONLY IF some line is followed by another line of its record, every such line has exactly bpl bytes and rpl residues, and every line at all (last, only, unterminated) has at most rpl residues and at most bpl-rpl-1 ignored bytes (tracker_iff; tracker_sound is the direction the reverse-window / FetchSubseq theorems need); "
                   "write + re-read (text and digital mode): specFasta applied to what esl_sqascii_WriteFasta writes for any list of writable records returns exactly these records (write_read_roundtrip, write_read_roundtrip_digital); line-based formats (EMBL/UniProt/GenBank/DDBJ): loadbuf in line mode delivers the next line of the FILE for every B (loadbuf_line_closed_form), header_embl / header_genbank and the WHOLE of sqascii_Read return the same status and the same ESL_SQ (every field) for any two block sizes, from open on through every record of the file, likewise ReadInfo, ReadSequence, forward ReadWindow and whole-sequence ReadBlock (read_all_linebased_block_size_independent, read_linebased_block_size_independent, readInfo_readSequence_linebased_block_size_independent, readWindow_readBlock_linebased_block_size_independent; by simulation). "
                   "Tie: the executable line-by-line model of the ascii reader (FASTA, EMBL/UniProt, GenBank/DDBJ, daemon, hmmpgmd, autodetection; block size B a parameter) is compared exactly with the ASan/UBSan build over Read / ReadInfo / ReadSequence / windows on both strands / ReadBlock (short and long-target) / FASTA round trip x text and digital mode x B swept over 1..4097 (fixed list, uniform, and the sizes that put a block boundary inside/at the end of the header line, at every '>', between CR and LF, at the end of the file), "
                   "and agreement monitors (records equal across read paths, block sizes and modes; offsets are the true byte positions, also on CRLF files; windows reassemble the sequence; reverse strand = reverse complement; write+re-read reproduces the records) give the concrete failing input.")
-    level_note = ("Not theorems (exact differential run + monitors only): a declarative parser for the line-based formats (EMBL/UniProt, GenBank/DDBJ: block-size independence of Read/ReadInfo/ReadSequence/forward ReadWindow/whole-sequence ReadBlock is a theorem; Read = a declarative spec and cross-call agreement there are not), daemon/hmmpgmd, that the line-geometry tracker's bpl/rpl > 0 imply the geometry hypothesis of the reverse-window / FetchSubseq theorems (false in general: the known finding), long-target ReadBlock, ReadWindow on a record whose data holds an illegal byte (the window theorems assume the whole-record read succeeds). "
-                  "The same files are also read through a real gzip -dc pipe and through standard input (emulated with freopen in a child) and compared with the model; the alignment-as-sequences branch is not modelled. Known: on a pipe the four offsets come from a failing ftello() (known_findings.d/C04.json), only they are excluded from the comparison there. Known finding: the bytes/residues-per-line tracker accepts a longer last line (reverse windows then fail) - see known_findings.d/C04.json.")
+    level_note = ("Not theorems (exact differential run + monitors only): a declarative parser for the line-based formats (EMBL/UniProt, GenBank/DDBJ: block-size independence of Read/ReadInfo/ReadSequence/forward ReadWindow/whole-sequence ReadBlock is a theorem; Read = a declarative spec and cross-call agreement there are not), daemon/hmmpgmd, the composition 'seebuf over the bytes of a file = the line events of tracker_iff' (tracker_iff is a theorem about the tracker fed with each record's completed lines; that the real seebuf, called block by block and window by window, produces these events is tied by the trackscan monitor on the implementation's bpl/rpl and by the exact comparison of the `geom` op), long-target ReadBlock, ReadWindow on a record whose data holds an illegal byte (the window theorems assume the whole-record read succeeds). "
+                  "The same files are also read through a real gzip -dc pipe, through standard input re-opened on the file, and through standard input as a real pipe (cat file |) in a child process, and compared with the model including the four offsets; the alignment-as-sequences branch is not modelled. Offsets on a pipe (gzip -dc, and a real pipe on standard input fed by cat) are compared exactly and checked as byte positions since the repair ec6a8a0 (loadmem counts bytes where ftello() fails).")
     assumptions = ["fread returns min(B, remaining) bytes; allocation never fails (eslEMEM paths not modelled)",
                    "the model mirrors esl_sqio_ascii.c by hand; fidelity is checked by the differential run only",
                    "alignment files read as sequences are outside the model (monitor only); a gzip pipe / standard input deliver the bytes of the file (popen/freopen plumbing trusted)",
@@ -139,8 +134,20 @@ class C04(Prop):
                        "readwin C=0 W=-10", "readwin C=0 W=-10", "readwin C=0 W=-10", "readwin C=0 W=-10", "close", "open fmt=fasta abc=dna B=2", "readwin C=2 W=3", "readwin C=2 W=3", "readwin C=2 W=3",
                        "readwin C=2 W=3", "readwin C=2 W=3", "readwin C=2 W=3", "readwin C=2 W=3", "readwin C=2 W=3", "readwin C=2 W=3", "readwin C=2 W=3", "readwin C=2 W=3", "readwin C=2 W=3", "geom",
                        "readwin C=1 W=-1", "readwin C=1 W=-1", "readwin C=1 W=-1", "readwin C=1 W=-1", "readwin C=1 W=-1", "readwin C=1 W=-1", "readwin C=1 W=-1"]})
-        # witness of the known finding (line-geometry tracker), seen through reverse windows
-        cs.append({"name": "known-geometry-long-single-line", "sticky": 1, "known_key": "C04:" + S.KEY_GEOM,
+        # regression (repaired by ec6a8a0, was known finding C04:pipe:offsets-from-ftello): offsets through a gzip -dc pipe and through a
+        # REAL pipe on standard input are the byte positions in the stream - compared exactly with the model and checked by the offsets
+        # monitor; small B puts every record in its own read block (the count moff + mn is carried from block to block), format given and
+        # autodetected (recording branch of loadmem)
+        f = b">a\nAC\n"
+        g2 = b">a first\nAC\n>b second\n" + b"ACGTACGTACGTACGTACGTACGTACGTACGTACGTACGTACGTACGTACGTACGTACGT\n" * 9 + b">c\nGGTT\n>d\n"
+        ops = ["file ext=fa hex=" + hx(f), "srcscan src=gzip fmt=fasta abc=text B=4096 call=read C=0 W=1", "srcscan src=pipe fmt=fasta abc=text B=4096 call=read C=0 W=1",
+               "file ext=dat hex=" + hx(g2)]
+        for src in ("gzip", "pipe", "stdin"):
+            for B, fmt, call in ((4096, "fasta", "read"), (7, "fasta", "readinfo"), (64, "unknown", "read"), (1, "fasta", "readseq"), (100, "unknown", "win"), (4096, "unknown", "read")):
+                ops.append("srcscan src=%s fmt=%s abc=%s B=%d call=%s C=2 W=50" % (src, fmt, "text" if B != 7 else "dna", B, call))
+        cs.append({"name": "pipe-offsets", "sticky": 1, "ops": ops})
+        # regression (repaired by 283ccd7, was known finding C04:seebuf:line-geometry-accepts-long-last-line), seen through reverse windows
+        cs.append({"name": "geometry-long-single-line", "sticky": 1,
                    "ops": ["file ext=fa hex=" + hx(b">A\nACGT\nAC\n>B\nACGTAC\n"), "open fmt=fasta abc=text B=4096", "readwin C=0 W=100", "readwin C=0 W=100", "reuse",
                            "readwin C=0 W=100", "readwin C=0 W=100", "geom", "readwin C=0 W=-2"]})
         return cs
@@ -152,8 +159,8 @@ class C04(Prop):
         for c in range(n):
             kind = rng.choice(["dna", "dna", "dna", "rna", "amino"])
             if rng.random() < 0.06:
-                # sequential scan + `geom`: the tracker's final (bpl, rpl) must be the closed form of Sqio/TrackerExact.lean
-                # (tracker_rpl_iff / tracker_bpl_iff rest on it) - checked on the implementation's answer by monitor()
+                # sequential scan + `geom`: the tracker's final (bpl, rpl) must be what tracker_iff (Sqio/TrackerExact.lean) says for the
+                # file's lines - checked on the implementation's answer by monitor()
                 data, lens = gen_trackscan(rng)
                 nrec = len(lens)
                 ops = ["file ext=fa hex=" + hx(data)]
@@ -251,7 +258,7 @@ class C04(Prop):
                     call = rng.choice(["read", "readinfo", "readseq", "win"])
                     abc2 = rng.choice(["text", kind])
                     ops.append("srcscan src=%s fmt=%s abc=%s B=%d call=%s C=%d W=%d" % (
-                        rng.choice(["gzip", "stdin"]), fmt if (rng.random() < 0.6 or fmt in ("daemon", "hmmpgmd")) else "unknown", abc2, S.pick_B(rng, data, small_ok=len(data) <= 4000) if fmt != "daemon" else 4096, call,
+                        rng.choice(["gzip", "stdin", "pipe"]), fmt if (rng.random() < 0.6 or fmt in ("daemon", "hmmpgmd")) else "unknown", abc2, S.pick_B(rng, data, small_ok=len(data) <= 4000) if fmt != "daemon" else 4096, call,
                         rng.choice([0, 2, 10]), rng.choice([1, 7, 60, 5000])))
             nsess = rng.choice([2, 3, 4])
             for s in range(nsess):
@@ -339,10 +346,10 @@ class C04(Prop):
         f = S.monitor_c04(case, out)
         if f or not (case.get("meta") or {}).get("trackscan"):
             return f
-        # the Ev-level closed form of the tracker (TrackerExact.lean) against the real seebuf(): after a sequential scan of the
-        # whole file from open on, by Read / ReadSequence / forward windows, (bpl, rpl) = fold over consecutive line pairs
+        # tracker_iff (TrackerExact.lean) against the real seebuf(): after a sequential scan of the whole file from open on, by Read or
+        # forward windows of any width (seebuf then stops in the middle of lines), bpl, rpl > 0 iff the file has the constant geometry
         data = S.unhx(case["ops"][0].split("hex=")[1])
-        want = tracker_closed_form(data)
+        want = tracker_predicate(data)
         eof_seen = False
         for op, l in zip(case["ops"], out):
             if op.startswith("open "):
@@ -352,8 +359,15 @@ class C04(Prop):
             elif op == "geom" and eof_seen and l.startswith("ok bpl="):
                 d = dict(x.split("=", 1) for x in l.split()[1:])
                 got = (int(d["bpl"]), int(d["rpl"]))
-                if got != want:
-                    return Failure("monitor", "line-geometry tracker after a full scan: (bpl, rpl) = %s, closed form of the consecutive line pairs = %s" % (got, want))
+                if want is None:
+                    ok = got == (-1, -1)
+                elif want[2]:
+                    ok = got == (want[0], want[1])
+                else:
+                    ok = not (got[0] > 0 and got[1] > 0)
+                if not ok:
+                    return Failure("monitor", "line-geometry tracker after a full scan: (bpl, rpl) = %s, but tracker_iff says %s" % (
+                        got, "unset (-1, -1)" if want is None else ("(%d, %d)" % want[:2] if want[2] else "not both positive (first full line (%d, %d), geometry not constant)" % want[:2])))
         return None
 
 
